@@ -256,6 +256,123 @@ func hashPkg(r *core.Run, rel string) {
 		r.Check(ok, fmt.Sprintf("%s._Hash_table[%d]", rel, i), tabL.Pos, "", fmt.Sprintf("slot %d holds %#x which is not a Hash constant", i, v))
 	}
 	r.Floor(rel+" Hash constants", len(names), map[string]int{"css": 6, "html": 8}[rel])
+	// Hash.Bytes(): for every constant the bounds guard lets the text through and the slice is text[start:start+n]
+	bd, _ := r.Prog.FuncDecl(rel, "Hash", "Bytes")
+	if bd == nil || bd.Body == nil || bd.Recv == nil || len(bd.Recv.List) == 0 || len(bd.Recv.List[0].Names) == 0 {
+		r.BrokenAnchor(rel + ".Hash.Bytes")
+		return
+	}
+	recv := bd.Recv.List[0].Names[0].Name
+	for _, nme := range names {
+		v, _ := constant.Uint64Val(constant.ToInt(consts[nme]))
+		want, _ := textOf(v)
+		got, why := evalHashBytes(pk, bd, recv, v, text)
+		r.Check(why == "" && got == want, rel+".Hash "+nme+" Bytes()", bd.Pos(), "",
+			fmt.Sprintf("%s.Bytes() does not return the constant's text %q (%s %q): raw-text end tags and at-rule names compared through Bytes()/String() stop matching", nme, want, why, got))
+	}
+}
+
+// evalHashBytes evaluates the straight-line body of Hash.Bytes for one receiver value: assignments of
+// integer expressions, `if cond { return <empty> }` guards, and a final `return _Hash_text[lo:hi]`.
+func evalHashBytes(pk *packages.Package, fd *ast.FuncDecl, recv string, val uint64, text string) (string, string) {
+	env := map[string]constant.Value{recv: constant.MakeUint64(val)}
+	var eval func(e ast.Expr) (constant.Value, bool)
+	eval = func(e ast.Expr) (constant.Value, bool) {
+		if tv, ok := pk.TypesInfo.Types[e]; ok && tv.Value != nil {
+			return constant.ToInt(tv.Value), true
+		}
+		switch x := e.(type) {
+		case *ast.ParenExpr:
+			return eval(x.X)
+		case *ast.Ident:
+			v, ok := env[x.Name]
+			return v, ok
+		case *ast.CallExpr:
+			if len(x.Args) != 1 {
+				return nil, false
+			}
+			if id, ok := x.Fun.(*ast.Ident); ok && id.Name == "len" {
+				if a, ok := x.Args[0].(*ast.Ident); ok && a.Name == "_Hash_text" {
+					return constant.MakeInt64(int64(len(text))), true
+				}
+				return nil, false
+			}
+			if tv, ok := pk.TypesInfo.Types[x.Fun]; ok && tv.IsType() {
+				v, ok := eval(x.Args[0])
+				if !ok {
+					return nil, false
+				}
+				if b, isB := tv.Type.Underlying().(*types.Basic); isB && b.Kind() == types.Uint32 {
+					u, _ := constant.Uint64Val(v)
+					return constant.MakeUint64(u & 0xffffffff), true
+				}
+				return v, true
+			}
+		case *ast.BinaryExpr:
+			a, ok1 := eval(x.X)
+			c, ok2 := eval(x.Y)
+			if !ok1 || !ok2 {
+				return nil, false
+			}
+			switch x.Op {
+			case token.SHR, token.SHL:
+				k, _ := constant.Uint64Val(c)
+				return constant.Shift(a, x.Op, uint(k)), true
+			case token.ADD, token.SUB, token.AND, token.OR, token.MUL:
+				return constant.BinaryOp(a, x.Op, c), true
+			case token.LSS, token.LEQ, token.GTR, token.GEQ, token.EQL, token.NEQ:
+				return constant.MakeBool(constant.Compare(a, x.Op, c)), true
+			}
+		}
+		return nil, false
+	}
+	for _, st := range fd.Body.List {
+		switch x := st.(type) {
+		case *ast.AssignStmt:
+			if len(x.Lhs) != 1 || len(x.Rhs) != 1 {
+				return "", "unsupported assignment"
+			}
+			id, ok := x.Lhs[0].(*ast.Ident)
+			v, ok2 := eval(x.Rhs[0])
+			if !ok || !ok2 {
+				return "", "assignment not evaluable"
+			}
+			env[id.Name] = v
+		case *ast.IfStmt:
+			c, ok := eval(x.Cond)
+			if !ok || c.Kind() != constant.Bool || x.Else != nil || x.Init != nil {
+				return "", "guard not evaluable"
+			}
+			if constant.BoolVal(c) {
+				return "", "the bounds guard rejects the constant and returns"
+			}
+		case *ast.ReturnStmt:
+			if len(x.Results) != 1 {
+				return "", "unsupported return"
+			}
+			se, ok := x.Results[0].(*ast.SliceExpr)
+			if !ok || se.Low == nil || se.High == nil {
+				return "", "return is not a slice of _Hash_text"
+			}
+			if id, ok := se.X.(*ast.Ident); !ok || id.Name != "_Hash_text" {
+				return "", "return is not a slice of _Hash_text"
+			}
+			lo, ok1 := eval(se.Low)
+			hi, ok2 := eval(se.High)
+			if !ok1 || !ok2 {
+				return "", "slice bounds not evaluable"
+			}
+			l, _ := constant.Uint64Val(lo)
+			h, _ := constant.Uint64Val(hi)
+			if l > h || h > uint64(len(text)) {
+				return "", "slice bounds out of range"
+			}
+			return text[l:h], ""
+		default:
+			return "", "unsupported statement"
+		}
+	}
+	return "", "no return reached"
 }
 
 func mustText(f func(uint64) (string, bool), v uint64) string {
